@@ -100,11 +100,11 @@ class Reschedule(Cell):
         o1 = world.observe(project, 0, info)
         # second pass of what Project.schedule() does per scenario (the horizon/scoreboard set-up is a function of concrete
         # data and is not repeated here): prepareScenario, scheduleScenario, finishScenario
-        G = project.attributes["scheduleGranularity"]
+        G = project.attributes._g_sym
         with world.notrace():
-            project.attributes["scheduleGranularity"] = self.spec.resolution
+            project.attributes._g_sym = None
             world.prepare_next_scenario(project, 0, info)
-        project.attributes["scheduleGranularity"] = G
+        project.attributes._g_sym = G
         world.run_scenario(project, 0)
         o2 = world.observe(project, 0, info)
         tids = [self.spec.full_id(t) for t in self.spec.tasks]
